@@ -244,6 +244,9 @@ func judgeC12(hst Hist) *h.Verdict {
 			if st.creates > 1 {
 				v.NT("recharge-after-several-registrations")
 			}
+			if strings.HasPrefix(st.notify, "/notify-") {
+				v.Label("consumer-answers-notification-with-other-status")
+			}
 			if len(n.Body.ReauthorizationDetails) != 1 || n.Body.ReauthorizationDetails[0].RatingGroup != act(st.supi, rg) {
 				return v.Failf("recharge-notify-body", "step %d: notification body %s does not name exactly rating group %d", step, n.Raw, rg)
 			}
